@@ -40,9 +40,9 @@ G_NOTE = "trusted: independent lark PAR reader, CFG->SAT encoder (self-validated
 TV = "translation_validation"
 
 add("C01", TV,
-    "Translation validation of what the real generator produced, decided by z3 for ALL token strings up to N per corpus grammar: the PRODUCTIONS table in the generated parser source encodes the transformed grammar (shape + injective terminal map), has the same bounded language as the grammar as written (independent reader, textbook EBNF semantics), and G-tab shows that table-driven prediction with the generated LOOKAHEAD_AUTOMATA picks the right production at every node of every parse tree of every sentence <= N (so exactly the sentences are accepted by a predictive parser on these tables). The runtime half (eval exact on all buffers) is C08's Kani harness.",
+    "Translation validation of what the real generator produced, decided by z3 for ALL token strings up to N per corpus grammar: the PRODUCTIONS table in the generated parser source encodes the transformed grammar (shape + injective terminal map), has the same bounded language as the grammar as written (independent reader, textbook EBNF semantics), and G-tab shows that table-driven prediction with the generated LOOKAHEAD_AUTOMATA picks the right production at every node of every parse tree of every sentence <= N (so exactly the sentences are accepted by a predictive parser on these tables). The runtime side is covered by kernels only: eval is exact on all buffers (C08), and an add_error Kani leg in this check shows that a reported syntax error is always recorded (recovery on or off), so the final error test of parse_into cannot be passed after an error.",
     G_NOTE + "; runtime loop LLKParser::parse_into itself is not symbolically executed in this check (see C08/C19 for the kernels); recovery on/off does not change tables",
-    "bounded CFG language equivalence + LL(k) table validity encoded in SMT (z3), regenerated from parol's real output on every run; witnesses replayed on the generated parser", "DESIGN.md §4 C01")
+    "bounded CFG language equivalence + LL(k) table validity encoded in SMT (z3), regenerated from parol's real output on every run; witnesses replayed on the generated parser; plus a Kani kernel leg (add_error)", "DESIGN.md §4 C01")
 add("C07", TV,
     "G-tab on the minimised automata the real generator writes (generated parser source, and the export model): completeness (unsat required: every production applied in any sentence <= N is the one the automaton predicts within its declared k), exactness (every accepting path justified by a sentence <= N; semi-decided, unjustified paths are reported not alarmed) and the structural contract (sorted, deterministic, dense, accepting states are leaves, depth <= k <= MAX_K, predicted productions belong to the non-terminal).",
     G_NOTE, "LL(k) table validity encoded in SMT (z3) over all sentences <= N per grammar and lookahead limit", "DESIGN.md §4 C07")
